@@ -14,6 +14,11 @@ type nat =
 let fst = function
 | (x, _) -> x
 
+(** val snd : ('a1 * 'a2) -> 'a2 **)
+
+let snd = function
+| (_, y) -> y
+
 (** val length : 'a1 list -> nat **)
 
 let rec length = function
@@ -26,6 +31,13 @@ let rec app l m =
   match l with
   | [] -> m
   | a :: l1 -> a :: (app l1 m)
+
+(** val add : nat -> nat -> nat **)
+
+let rec add n0 m =
+  match n0 with
+  | O -> m
+  | S p -> S (add p m)
 
 type positive =
 | XI of positive
@@ -633,3 +645,381 @@ let run_ref s h t b =
 
 let run_sch fx sx s h t b =
   exec_sch fx sx (desugar s) (init_state h t b)
+
+type label = nat
+
+type cgs = { g_err : label; g_ret : label; g_brk : label; g_cont : label;
+             g_next : label }
+
+(** val set_err : label -> cgs -> cgs **)
+
+let set_err l g =
+  { g_err = l; g_ret = g.g_ret; g_brk = g.g_brk; g_cont = g.g_cont; g_next =
+    g.g_next }
+
+(** val set_ret : label -> cgs -> cgs **)
+
+let set_ret l g =
+  { g_err = g.g_err; g_ret = l; g_brk = g.g_brk; g_cont = g.g_cont; g_next =
+    g.g_next }
+
+(** val bump : nat -> cgs -> cgs **)
+
+let bump k g =
+  { g_err = g.g_err; g_ret = g.g_ret; g_brk = g.g_brk; g_cont = g.g_cont;
+    g_next = (add k g.g_next) }
+
+(** val restore : cgs -> cgs -> cgs **)
+
+let restore old g =
+  { g_err = old.g_err; g_ret = old.g_ret; g_brk = old.g_brk; g_cont =
+    old.g_cont; g_next = g.g_next }
+
+type trylabels = { t_our_err : label; t_exc_err : label; t_exc_ret : 
+                   label; t_try_ret : label; t_try_brk : label;
+                   t_try_cont : label; t_old_err : label; t_old_ret : 
+                   label; t_old_brk : label; t_old_cont : label }
+
+type finlabels = { f_new_cont : label; f_new_brk : label; f_new_ret : 
+                   label; f_new_err : label; f_ex_cont : label;
+                   f_ex_brk : label; f_ex_ret : label; f_ex_err : label;
+                   f_old_cont : label; f_old_brk : label; f_old_ret : 
+                   label; f_old_err : label }
+
+type lcode =
+| LSkip
+| LLog of nat * label
+| LProbe of label
+| LRaise of what * cause * label
+| LReraise of label
+| LGoto of label
+| LSeq of lcode * lcode
+| LTry of trylabels * lcode * lhandlers * lcode
+| LFinally of bool * finlabels * lcode * lcode * lcode * lcode * lcode * lcode
+| LLoop of nat * label * label * lcode
+| LDel of nat
+| LWithScope of nat * label * lcode
+| LExitExc of nat * exitk * label
+| LExitNone of nat * exitk * label
+and lhandlers =
+| LHNil
+| LHCons of nat option * nat option * bool * label * label * label * 
+   label * lcode * lhandlers
+
+(** val gen : bool -> cstmt -> cgs -> lcode * cgs **)
+
+let rec gen late_switch s g =
+  match s with
+  | CSkip -> (LSkip, g)
+  | CLog n0 -> ((LLog (n0, g.g_err)), g)
+  | CProbe -> ((LProbe g.g_err), g)
+  | CRaise (w, cz) -> ((LRaise (w, cz, g.g_err)), g)
+  | CReraise -> ((LReraise g.g_err), g)
+  | CSeq (a, b) ->
+    let (ca, g1) = gen late_switch a g in
+    let (cb, g2) = gen late_switch b g1 in ((LSeq (ca, cb)), g2)
+  | CTry (body, hs, orelse) ->
+    let n0 = g.g_next in
+    let tl = { t_our_err = n0; t_exc_err = (add (S (S O)) n0); t_exc_ret =
+      (add (S (S (S O))) n0); t_try_ret = (add (S (S (S (S O)))) n0);
+      t_try_brk = (add (S (S (S (S (S O))))) n0); t_try_cont =
+      (add (S (S (S (S (S (S O)))))) n0); t_old_err = g.g_err; t_old_ret =
+      g.g_ret; t_old_brk = g.g_brk; t_old_cont = g.g_cont }
+    in
+    let g1 = { g_err = n0; g_ret = (add (S (S (S (S O)))) n0); g_brk =
+      (add (S (S (S (S (S O))))) n0); g_cont =
+      (add (S (S (S (S (S (S O)))))) n0); g_next =
+      (add (S (S (S (S (S (S (S (S O)))))))) n0) }
+    in
+    let (cb, g2) = gen late_switch body g1 in
+    let g3 =
+      set_ret (add (S (S (S O))) n0)
+        (if late_switch then g2 else set_err (add (S (S O)) n0) g2)
+    in
+    let (ce, g4) = gen late_switch orelse g3 in
+    let g5 = set_err (add (S (S O)) n0) g4 in
+    let (ch, g6) = gen_h late_switch hs g5 in
+    ((LTry (tl, cb, ch, ce)), (restore g g6))
+  | CFinally (herr, body, fin) ->
+    let n0 = g.g_next in
+    let g1 = { g_err = (if herr then add (S (S (S O))) n0 else g.g_err);
+      g_ret = (add (S (S O)) n0); g_brk = (add (S O) n0); g_cont = n0;
+      g_next = (add (S (S (S (S (S O))))) n0) }
+    in
+    let (cb, g2) = gen late_switch body g1 in
+    let (cn, g3) = gen late_switch fin (restore g g2) in
+    let m = g3.g_next in
+    let (cx, g4) =
+      gen late_switch fin { g_err = (add (S (S (S O))) m); g_ret =
+        (add (S (S O)) m); g_brk = (add (S O) m); g_cont = m; g_next =
+        (add (S (S (S (S O)))) m) }
+    in
+    let (cc, g5) = gen late_switch fin (restore g g4) in
+    let (ck, g6) = gen late_switch fin g5 in
+    let (cr, g7) = gen late_switch fin g6 in
+    ((LFinally (herr, { f_new_cont = n0; f_new_brk = (add (S O) n0);
+    f_new_ret = (add (S (S O)) n0); f_new_err = (add (S (S (S O))) n0);
+    f_ex_cont = m; f_ex_brk = (add (S O) m); f_ex_ret = (add (S (S O)) m);
+    f_ex_err = (add (S (S (S O))) m); f_old_cont = g.g_cont; f_old_brk =
+    g.g_brk; f_old_ret = g.g_ret; f_old_err = g.g_err }, cb, cn, cx, cc, ck,
+    cr)), g7)
+  | CLoop (k, body) ->
+    let n0 = g.g_next in
+    let (cb, g2) =
+      gen late_switch body { g_err = g.g_err; g_ret = g.g_ret; g_brk =
+        (add (S O) n0); g_cont = n0; g_next = (add (S (S O)) n0) }
+    in
+    ((LLoop (k, (add (S O) n0), n0, cb)), (restore g g2))
+  | CReturn -> ((LGoto g.g_ret), g)
+  | CBreak -> ((LGoto g.g_brk), g)
+  | CContinue -> ((LGoto g.g_cont), g)
+  | CDel x -> ((LDel x), g)
+  | CWithScope (k, body) ->
+    let n0 = g.g_next in
+    let (cb, g2) = gen late_switch body (bump (S O) g) in
+    ((LWithScope (k, n0, cb)), (bump (S O) g2))
+  | CExitExc (k, x) -> ((LExitExc (k, x, g.g_err)), g)
+  | CExitNone (k, x) -> ((LExitNone (k, x, g.g_err)), g)
+
+(** val gen_h : bool -> chandlers -> cgs -> lhandlers * cgs **)
+
+and gen_h late_switch hs g =
+  match hs with
+  | CHNil -> (LHNil, g)
+  | CHCons (pat, name, body, tl) ->
+    let n0 = g.g_next in
+    let (cb, g2) =
+      gen late_switch body { g_err = g.g_err; g_ret = g.g_ret; g_brk =
+        (add (S O) n0); g_cont = n0; g_next = (add (S (S O)) n0) }
+    in
+    let (ct, g3) = gen_h late_switch tl (restore g g2) in
+    ((LHCons (pat, name,
+    ((||) (match name with
+           | Some _ -> true
+           | None -> false) (negb (trivial body))), (add (S O) n0), n0,
+    g.g_brk, g.g_cont, cb, ct)), g3)
+
+type lx =
+| XFall
+| XJump of label * nat option
+| XCrash
+
+(** val err_to : label -> oc -> lx **)
+
+let err_to l = function
+| ONorm -> XFall
+| ORaise e -> XJump (l, (Some e))
+| _ -> XCrash
+
+(** val try_exits : trylabels -> nat option -> lx -> state -> lx * state **)
+
+let try_exits tl saved x c =
+  match x with
+  | XJump (l, p) ->
+    if Nat.eqb l tl.t_exc_err
+    then ((XJump (tl.t_old_err, p)), (set_top saved c))
+    else if Nat.eqb l tl.t_try_brk
+         then ((XJump (tl.t_old_brk, p)), (set_top saved c))
+         else if Nat.eqb l tl.t_try_cont
+              then ((XJump (tl.t_old_cont, p)), (set_top saved c))
+              else if Nat.eqb l tl.t_try_ret
+                   then ((XJump (tl.t_old_ret, p)), (set_top saved c))
+                   else if Nat.eqb l tl.t_exc_ret
+                        then ((XJump (tl.t_old_ret, p)), (set_top saved c))
+                        else (x, c)
+  | _ -> (x, c)
+
+(** val fin_relabel : finlabels -> label -> label **)
+
+let fin_relabel fl l =
+  if Nat.eqb l fl.f_ex_cont
+  then fl.f_old_cont
+  else if Nat.eqb l fl.f_ex_brk
+       then fl.f_old_brk
+       else if Nat.eqb l fl.f_ex_ret
+            then fl.f_old_ret
+            else if Nat.eqb l fl.f_ex_err then fl.f_old_err else l
+
+(** val fin_copy : (lx * state) -> label -> nat option -> lx * state **)
+
+let fin_copy r old p =
+  match fst r with
+  | XFall -> ((XJump (old, p)), (snd r))
+  | _ -> r
+
+(** val exec_lab : bool -> bool -> lcode -> state -> lx * state **)
+
+let rec exec_lab fx sx s c =
+  match s with
+  | LSkip -> (XFall, c)
+  | LLog (n0, _) -> (XFall, (logst (fun _ _ -> EvLog n0) c))
+  | LProbe _ -> (XFall, (logst ev_probe c))
+  | LRaise (w, cz, l) ->
+    let (o, c1) = lift (do_raise w cz) c in ((err_to l o), c1)
+  | LReraise l -> let (o, c1) = reraise_sch fx c in ((err_to l o), c1)
+  | LGoto l -> ((XJump (l, None)), c)
+  | LSeq (a, b) ->
+    let (x, c1) = exec_lab fx sx a c in
+    (match x with
+     | XFall -> exec_lab fx sx b c1
+     | _ -> (x, c1))
+  | LTry (tl, body, hs, orelse) ->
+    let saved = if sx then c.top else handled c in
+    let (x, c1) = exec_lab fx sx body c in
+    let (x2, c2) =
+      match x with
+      | XFall -> exec_lab fx sx orelse c1
+      | _ -> (x, c1)
+    in
+    (match x2 with
+     | XJump (l, p) ->
+       let (x3, c3) =
+         if Nat.eqb l tl.t_our_err
+         then (match p with
+               | Some e -> handle_lab fx sx hs e tl saved c2
+               | None -> (XCrash, c2))
+         else (x2, c2)
+       in
+       try_exits tl saved x3 c3
+     | x0 -> (x0, c2))
+  | LFinally (herr, fl, body, fnorm, fexc, fcont, fbrk, fret) ->
+    let (x, c1) = exec_lab fx sx body c in
+    (match x with
+     | XFall -> exec_lab fx sx fnorm c1
+     | XJump (l, p) ->
+       if (&&) herr (Nat.eqb l fl.f_new_err)
+       then (match p with
+             | Some e ->
+               let saved = c1.top in
+               let old = c1.cur in
+               let (x2, c2) =
+                 exec_lab fx sx fexc
+                   (set_cur (Some (Some e)) (set_top (Some e) c1))
+               in
+               let v = c2.cur in
+               let c3 = set_cur old c2 in
+               (match x2 with
+                | XFall ->
+                  (match v with
+                   | Some o ->
+                     (match o with
+                      | Some e' ->
+                        ((XJump (fl.f_old_err, (Some e'))),
+                          (set_top saved c3))
+                      | None -> (XCrash, c3))
+                   | None -> (XCrash, c3))
+                | XJump (l2, p2) ->
+                  ((XJump ((fin_relabel fl l2), p2)), (set_top saved c3))
+                | XCrash -> (XCrash, c3))
+             | None -> (XCrash, c1))
+       else if Nat.eqb l fl.f_new_cont
+            then fin_copy (exec_lab fx sx fcont c1) fl.f_old_cont p
+            else if Nat.eqb l fl.f_new_brk
+                 then fin_copy (exec_lab fx sx fbrk c1) fl.f_old_brk p
+                 else if Nat.eqb l fl.f_new_ret
+                      then fin_copy (exec_lab fx sx fret c1) fl.f_old_ret p
+                      else (x, c1)
+     | XCrash -> (XCrash, c1))
+  | LLoop (n0, brk, cont, body) ->
+    let rec loop i c0 =
+      match i with
+      | O -> (XFall, c0)
+      | S i' ->
+        let (x, c1) = exec_lab fx sx body c0 in
+        (match x with
+         | XFall -> loop i' c1
+         | XJump (l, _) ->
+           if Nat.eqb l cont
+           then loop i' c1
+           else if Nat.eqb l brk then (XFall, c1) else (x, c1)
+         | XCrash -> (XCrash, c1))
+    in loop n0 c
+  | LDel x -> (XFall, (set_co (unbind x c.co) c))
+  | LWithScope (k, _, body) ->
+    let old = c.wx in
+    let (x, c1) =
+      exec_lab fx sx body (set_wx true (logst (fun _ _ -> EvEnter k) c))
+    in
+    (x, (set_wx old c1))
+  | LExitExc (k, x, l) ->
+    let arg = match c.cur with
+              | Some o -> o
+              | None -> None in
+    let c1 = logst (ev_exit k arg) (set_wx false c) in
+    (match x with
+     | XPass -> let (o, c2) = reraise_sch fx c1 in ((err_to l o), c2)
+     | XSwallow -> (XFall, c1)
+     | XRaise n0 ->
+       let (o, c2) = lift (raise_internal n0) c1 in ((err_to l o), c2))
+  | LExitNone (k, x, l) ->
+    if c.wx
+    then let c1 = logst (ev_exit k None) (set_wx false c) in
+         (match x with
+          | XRaise n0 ->
+            let (o, c2) = lift (raise_internal n0) c1 in ((err_to l o), c2)
+          | _ -> (XFall, c1))
+    else (XFall, c)
+
+(** val handle_lab :
+    bool -> bool -> lhandlers -> nat -> trylabels -> nat option -> state ->
+    lx * state **)
+
+and handle_lab fx sx hs e tl saved c =
+  match hs with
+  | LHNil -> ((XJump (tl.t_exc_err, (Some e))), c)
+  | LHCons (pat, name, needs, hbrk, hcont, obrk, ocont, body, tl') ->
+    if pat_matches pat (cls_of c e)
+    then if needs
+         then let old = c.cur in
+              let c1 =
+                set_cur (Some (Some e))
+                  (set_co (bind_opt name e c.co) (set_top (Some e) c))
+              in
+              let (x, c2) = exec_lab fx sx body c1 in
+              (match x with
+               | XFall -> (XFall, (set_top saved (set_cur old c2)))
+               | XJump (l, p) ->
+                 ((XJump
+                   ((if Nat.eqb l hbrk
+                     then obrk
+                     else if Nat.eqb l hcont then ocont else l), p)),
+                   (set_cur old c2))
+               | XCrash -> (XCrash, c2))
+         else let (x, c1) = exec_lab fx sx body c in
+              (match x with
+               | XFall -> (XFall, (set_top saved c1))
+               | _ -> (x, c1))
+    else handle_lab fx sx tl' e tl saved c
+
+(** val g_fun : cgs **)
+
+let g_fun =
+  { g_err = (S O); g_ret = O; g_brk = (S (S O)); g_cont = (S (S (S O)));
+    g_next = (S (S (S (S O)))) }
+
+(** val untr : cgs -> lx -> oc **)
+
+let untr g = function
+| XFall -> ONorm
+| XJump (l, p) ->
+  if Nat.eqb l g.g_err
+  then (match p with
+        | Some e -> ORaise e
+        | None -> OCrash)
+  else if Nat.eqb l g.g_ret
+       then ORet
+       else if Nat.eqb l g.g_brk
+            then OBrk
+            else if Nat.eqb l g.g_cont then OCont else OCrash
+| XCrash -> OCrash
+
+(** val run_lab :
+    bool -> bool -> bool -> stmt -> eobj list -> nat option -> nat option ->
+    oc * state **)
+
+let run_lab late_switch fx sx s h t b =
+  let (x, c) =
+    exec_lab fx sx (fst (gen late_switch (desugar s) g_fun))
+      (init_state h t b)
+  in
+  ((untr g_fun x), c)
